@@ -643,6 +643,14 @@ where
 
     #[inline(always)]
     fn unflatten(self) -> Self::Output {
+        // `NM: Div<N>` also admits lengths that are not a multiple of `N` (the quotient rounds
+        // down). `const_transmute` rejects those by comparing sizes, which cannot tell the
+        // lengths apart when `T` is zero-sized: compare the element counts too, so that no
+        // element is silently lost (and never dropped).
+        if NM::USIZE != N::USIZE * <Quot<NM, N> as Unsigned>::USIZE {
+            panic!("Size mismatch for generic_array::const_transmute");
+        }
+
         unsafe { crate::const_transmute(self) }
     }
 }
